@@ -1,6 +1,10 @@
 package eng
 
-import "strings"
+import (
+	"bytes"
+	"compress/gzip"
+	"strings"
+)
 
 // tamper applies one object-store mutation from the catalogue (C08).
 func (w *seqWorld) resolveKey(k string, v int64) string {
@@ -87,6 +91,25 @@ func (w *seqWorld) tamper(c0 *seqCmd) {
 			d[i] ^= 0x01
 			o.data = d
 			applied = "flip"
+		}
+	case "flipraw":
+		// a byte of the CONTENT changes (inside the compressed stream for compressed objects): a data tile that still
+		// decompresses and parses, with one leaf altered
+		if ok && len(o.data) > 0 {
+			raw, err := sqGunzip(o.data)
+			if err != nil || len(raw) == 0 {
+				d := append([]byte(nil), o.data...)
+				d[int(c.V)%len(d)] ^= 0x01
+				o.data = d
+			} else {
+				raw[int(c.V)%len(raw)] ^= 0x01
+				var buf bytes.Buffer
+				zw := gzip.NewWriter(&buf)
+				zw.Write(raw)
+				zw.Close()
+				o.data = buf.Bytes()
+			}
+			applied = "flipraw"
 		}
 	case "rollback":
 		// put back an earlier content of the same key (an older, validly signed checkpoint; a discarded staging bundle)
